@@ -36,6 +36,7 @@ OPS_FULL = [
     ("is_true", BOOL, [BOOL]), ("is_false", BOOL, [BOOL]),
     ("distinct", BOOL, [INT, INT]), ("not_distinct", BOOL, [INT, INT]),
     ("like", BOOL, [STR, STR]), ("not_like", BOOL, [STR, STR]), ("like_esc", BOOL, [STR, STR]),
+    ("not_like_esc", BOOL, [STR, STR]), ("like_escq", BOOL, [STR, STR]), ("not_like_escq", BOOL, [STR, STR]),
     ("in", BOOL, [INT, INT, INT]), ("not_in", BOOL, [INT, INT, INT]),
     ("between", BOOL, [INT, INT, INT]), ("not_between", BOOL, [INT, INT, INT]),
     ("and", BOOL, [BOOL, BOOL]), ("or", BOOL, [BOOL, BOOL]), ("not", BOOL, [BOOL]), ("inv", BOOL, [BOOL]),
